@@ -14,7 +14,7 @@ GROUP = dict(
     outside_methods={SP: ['operator->', 'operator bool', 'get'], SPB: ['operator bool', 'get'], SPA: ['operator->']},
     extern_re=[r'MoveOnlyFunction<void\s*\(\)>::', r'internal::future::run_callback'],
     outside_funcs={'clock_gettime': 'vf_clock_gettime', '__errno_location': 'vf_errno_location'},
-    roots=[FC + '::set_value', FC + '::wait_slow', FC + '::wait_for_slow', FC + '::get', FC + '::seal', FC + '::ready', PR + '::set_value'],
+    roots=[FC + '::on_finish', FC + '::set_value', FC + '::wait_slow', FC + '::wait_for_slow', FC + '::get', FC + '::seal', FC + '::ready', PR + '::set_value'],
     reviewed_compiler_conditionals=[],
     assumptions=['SC; the READY bit of the futex word is never taken back (only set_value writes it; clear() is documented as not concurrent)',
                  'CLOCK_MONOTONIC is non-decreasing and below 2^32 s; timeouts <= 2^62 ns (above that the signed sum wraps: benign natively, see DESIGN F-e)',
@@ -25,6 +25,7 @@ GROUP = dict(
         dict(id='C08.get', enforce='FC_get', replace=['FC_wait_slow']),
         dict(id='C08.promise.set_value', enforce='Promise_set_value__int', replace=['FC_set_value__int_void']),
         dict(id='C08.set_value', enforce='FC_set_value__int_void', loops=True, backend='cadical', defines=['VF_SETVAL_CONTRACT 1'], covers=['g_cbn > 5 && g_waiters0 > 0', 'g_cbn == 0']),
+        dict(id='C08.on_finish', enforce='FC_on_finish__CbRef_void', loops=True, backend='cadical', defines=['VF_ONFINISH 1'], covers=['g_of_direct == 1', 'g_of_registered == 1', 'g_of_fn_runs == 1']),
         dict(id='C08.set_value.bounded', harness='h_set_value', unwind=5, bounded='<= 3 callbacks registered before set_value; any waiter count; unwind 5'),
     ],
 )
